@@ -209,7 +209,29 @@ func runPlan(p plan) []event {
 		defer tm.Stop()
 	}
 
-	results, errs := promise.All(ctx, fns...)
+	// All must return once every task has finished: it is called in a goroutine of its own and given up after a while (the history then
+	// ends with "noreturn" instead of "return")
+	type allRes struct {
+		r []int
+		e []error
+	}
+	ch := make(chan allRes, 1)
+	go func() {
+		r, e := promise.All(ctx, fns...)
+		ch <- allRes{r, e}
+	}()
+	var results []int
+	var errs []error
+	select {
+	case x := <-ch:
+		results, errs = x.r, x.e
+	case <-time.After(4*time.Second + time.Duration(16000*p.SlowScale)*time.Microsecond):
+		logEv(event{T: "noreturn"})
+		mu.Lock()
+		out := append([]event{}, evs...)
+		mu.Unlock()
+		return out
+	}
 
 	// sample the completion flags and copy the returned slices at the moment All returned
 	f := make([]bool, p.N)
